@@ -26,7 +26,7 @@ ASSUMPTIONS = [
     "count_kmers is generated with k <= 5 (its label table has |A|^k entries).",
 ]
 REQUIRED_CLASSES = ["w=1", "w-equals-row-length", "w-one-more-than-row", "row-shorter-than-w", "empty-row", "bit-packed", "generic", "k>=16",
-                    "minimizers", "match_string", "motif", "count", "view-input", "call-history", "history-same-size-other-alphabet"]
+                    "minimizers", "match_string", "motif", "count", "view-input", "call-history", "history-same-size-other-alphabet", "motif-alphabet-times-window>256"]
 BOUNDS = {"quick": "exhaustive core (<=3 rows, length <=4, two letters, w<=5, all functions); 400 sampled per function family",
           "thorough": "exhaustive core; 20000 sampled"}
 BUDGET_S = {"quick": 200, "thorough": 1500}
@@ -77,6 +77,8 @@ def classify(case):
         cl.append("row-shorter-than-w")
     if any(r == "" for r in rows):
         cl.append("empty-row")
+    if case["fn"] == "motif" and len(case.get("letters", "")) * w > 256:
+        cl.append("motif-alphabet-times-window>256")
     if case["fn"] in ("kmers", "minimizers", "count"):
         cl.append("bit-packed" if len(ALPHA[case["alpha"]]) == 4 else "generic")
         if case.get("k", 0) >= 16:
@@ -254,8 +256,10 @@ def sampled_case(draw, fn, max_rows, max_len):
         w = draw(st.integers(1, 10))
         k = None
     else:
-        alpha, chars, k = None, "ACGT", None
-        w = draw(st.integers(1, 6))
+        # motif scoring: DNA, and larger alphabets with long motifs (alphabet size x window beyond one byte)
+        alpha, k = None, None
+        chars = draw(st.sampled_from(["ACGT", "ACGT", "ACGTMRSVWYHKDBN", "ACDEFGHIKLMNPQRSTVWY"]))
+        w = draw(st.integers(1, 6)) if len(chars) == 4 else draw(st.one_of(st.integers(1, 6), st.integers(12, 20)))
     lens = st.one_of(st.sampled_from([0, max(w - 1, 0), w, w + 1]), st.integers(0, max(max_len, w + 2)))
     n = draw(st.integers(1, max_rows))
     rows = [draw(lens.flatmap(lambda L: st.text(alphabet=chars, min_size=L, max_size=L))) for _ in range(n)]
@@ -278,8 +282,8 @@ def sampled_case(draw, fn, max_rows, max_len):
         else:
             case["pattern"] = draw(st.text(alphabet=chars, min_size=w, max_size=w))
     if fn == "motif":
-        case["letters"] = "ACGT"
-        case["probs"] = {a: [draw(st.sampled_from([0.0, 0.1, 0.25, 0.5, 1.0])) for _ in range(w)] for a in "ACGT"}
+        case["letters"] = chars
+        case["probs"] = {a: [draw(st.sampled_from([0.0, 0.1, 0.25, 0.5, 1.0])) for _ in range(w)] for a in chars}
     if draw(st.integers(0, 2)) == 0:
         # the same rows handed over as a selection from a larger, differently ordered collection (a non-contiguous view)
         case["view"] = {"extra": draw(st.lists(st.text(alphabet=chars, min_size=0, max_size=max(max_len, w + 2)), min_size=0, max_size=3)),
